@@ -156,22 +156,37 @@ class Timeout(Exception):
     pass
 
 
+class Skipped(Exception):
+    pass
+
+
+_timeouts = 0
+
+
 class time_limit:
-    """a mutated loop that never ends must become a failing output, not a hung check"""
+    """A mutated loop that never ends must become a failing output, not a hung check: the implementation gets
+    `seconds` of CPU time (not wall time, so a loaded machine cannot cause a false alarm; the real code needs
+    milliseconds). After two such failures inside a pool worker the rest of that worker's share is skipped
+    (reported as not evaluated, never as passing evidence for the failing ones): the run is failing already."""
 
     def __init__(self, seconds):
         self.seconds = seconds
 
     def _raise(self, *a):
-        raise Timeout("no result within %ss" % self.seconds)
+        global _timeouts
+        _timeouts += 1
+        raise Timeout("no result within %ss of CPU time (endless loop?)" % self.seconds)
 
     def __enter__(self):
-        self.old = signal.signal(signal.SIGALRM, self._raise)
-        signal.setitimer(signal.ITIMER_REAL, self.seconds)
+        import multiprocessing
+        if _timeouts >= 2 and multiprocessing.current_process().name != "MainProcess":
+            raise Skipped()
+        self.old = signal.signal(signal.SIGVTALRM, self._raise)
+        signal.setitimer(signal.ITIMER_VIRTUAL, self.seconds)
 
     def __exit__(self, *a):
-        signal.setitimer(signal.ITIMER_REAL, 0)
-        signal.signal(signal.SIGALRM, self.old)
+        signal.setitimer(signal.ITIMER_VIRTUAL, 0)
+        signal.signal(signal.SIGVTALRM, self.old)
 
 
 def build_network(mods, case, with_geom=False):
